@@ -9,13 +9,17 @@ from . import an
 class Pred:
     """A predicate instance: key (hashable), and the roots its truth depends on."""
 
-    __slots__ = ("key", "deps", "variant_true")
+    __slots__ = ("key", "deps", "variant_true", "universe", "to_set")
 
-    def __init__(self, key, deps, variant_true=None):
+    def __init__(self, key, deps, variant_true=None, universe=None, to_set=None):
         self.key = key
         self.deps = deps  # list of AP
         # for discriminant switches: interpret "variant == variant_true" as the boolean value of the predicate
         self.variant_true = variant_true
+        # integer-valued subject (e.g. a byte): facts are frozensets of possible values within `universe`;
+        # `to_set(truth)` converts the outcome of a boolean test (comparison with a constant) into such a set
+        self.universe = universe
+        self.to_set = to_set
 
 
 def ap_prefix(a, b):
@@ -66,7 +70,7 @@ def _dead(pred, kills):
     return False
 
 
-def valuations_at(body, site_bb, classify, max_states=20000):
+def valuations_at(body, site_bb, classify, max_states=20000, avoid=()):
     """classify(kind, obj, body, switch_bb) -> Pred or None, for a condition source of a switch.
     For discriminant switches classify receives kind='discr', obj=(AP, rvalue).
     Returns (list of valuations (dict key -> value) holding just before the terminator of site_bb,
@@ -80,6 +84,12 @@ def valuations_at(body, site_bb, classify, max_states=20000):
         srcs = an.cond_sources(body, Operand(t["d"]))
         lst = []
         for kind, obj, pol in srcs:
+            if kind == "place":
+                r0 = classify(kind, obj, body, b)
+                if r0 is not None:
+                    p, neg = r0
+                    lst.append((kind, obj, pol if not neg else (not pol), p))
+                    continue
             if kind in ("multi", "place"):
                 # bool temp assigned on several paths from predicate calls: resolved through aliases
                 loc = None
@@ -91,8 +101,7 @@ def valuations_at(body, site_bb, classify, max_states=20000):
                 if loc is not None:
                     lst.append(("alias", loc, pol, None))
                     continue
-                if kind == "multi":
-                    continue
+                continue
             r = classify(kind, obj, body, b)
             if r is not None:
                 p, neg = r
@@ -120,8 +129,11 @@ def valuations_at(body, site_bb, classify, max_states=20000):
     results = []
     complete = True
     sc = body.succs()
+    avoid = set(avoid)
     while work:
         b, val = work.pop()
+        if b in avoid and b != site_bb:
+            continue
         # effects of the block body
         ks = get_kills(b)
         if b == site_bb:
@@ -171,6 +183,15 @@ def valuations_at(body, site_bb, classify, max_states=20000):
                         if not pol:
                             truth = not truth
                         fact = truth
+                        if p.to_set is not None:
+                            fact = p.to_set(truth)
+                    elif p.universe is not None and kind != "discr":
+                        if is_else and vals_here:
+                            continue
+                        if is_else:
+                            fact = frozenset(p.universe) - frozenset(int(v_) for v_ in listed)
+                        else:
+                            fact = frozenset(int(v_) for v_ in vals_here)
                     elif kind == "discr":
                         names = obj[1].get("variants", {})
                         if is_else and vals_here:
